@@ -76,7 +76,7 @@ func cmdFaults(args []string) int {
 				err = e
 				break
 			}
-			_ = inst.Rules.Close(ctx)
+			_ = closeRules(ctx, inst.Rules)
 			obs, e := inst.safeExec(ctx, op)
 			if e != nil {
 				monFail = append(monFail, fmt.Sprintf("request against a closed store: %v :: %s", e, op))
